@@ -329,10 +329,21 @@ pub(crate) fn spawn_client_impl<T>(
     });
 }
 
-pub(crate) fn spawn_event_callback(event: Arc<ClientEvent>, callback: Arc<ClientEventListenerCallback>) {
-    tokio::spawn(async move {
-        (callback)(event)
+type EventDispatch = (Arc<ClientEvent>, Arc<ClientEventListenerCallback>);
+
+// Event callbacks run off the client's own task so that a slow listener cannot stall the client, but they must
+// still be invoked in the order the events were emitted: one dispatcher task drains a queue, instead of one
+// independently scheduled task per event (which lets the runtime reorder them).
+pub(crate) fn spawn_event_dispatcher(runtime_handle: &Handle) -> UnboundedSender<EventDispatch> {
+    let (sender, mut receiver) = tokio::sync::mpsc::unbounded_channel::<EventDispatch>();
+    runtime_handle.spawn(async move {
+        while let Some((event, callback)) = receiver.recv().await {
+            // a panicking listener must not end event delivery, as it did not when every callback had its own task
+            let _ = std::panic::catch_unwind(std::panic::AssertUnwindSafe(|| (callback)(event)));
+        }
     });
+
+    sender
 }
 
 type TokioConnectionFactoryReturnType<T> = Pin<Box<dyn Future<Output = GneissResult<T>> + Send>>;
@@ -492,8 +503,9 @@ pub fn new_tokio_client<T>(client_config: MqttClientOptions, connect_config: Con
 where T: AsyncRead + AsyncWrite + Send + Sync + 'static {
     let (operation_sender, internal_state) = create_runtime_states(connection_factory);
 
-    let callback_spawner : CallbackSpawnerFunction = Box::new(|event, callback| {
-        spawn_event_callback(event, callback)
+    let event_sender = spawn_event_dispatcher(&tokio_options.runtime);
+    let callback_spawner : CallbackSpawnerFunction = Box::new(move |event, callback| {
+        let _ = event_sender.send((event, callback));
     });
 
     let client_impl = MqttClientImpl::new(client_config, connect_config, callback_spawner);
